@@ -1,0 +1,130 @@
+// Copyright 2026 The Go Authors. All rights reserved.
+// Use of this source code is governed by a BSD-style
+// license that can be found in the LICENSE file.
+
+//go:build verif
+
+package ssh
+
+import (
+	"fmt"
+	"io"
+	"net"
+	"slices"
+	"time"
+)
+
+// Verification hooks (build tag "verif" only): run the real server-side user
+// authentication loop (serverAuthenticate) over a scripted in-memory
+// transport, with a caller-chosen session identifier and remote address, for
+// model-based conformance checking.
+
+// VerifServerAuthScript plays the client. It is called, in the goroutine that
+// runs serverAuthenticate, each time the server reads a packet; written holds
+// the packets the server wrote since the previous call. It returns the next
+// client packet, or an error (io.EOF for an orderly close) that readPacket
+// reports to the server.
+type VerifServerAuthScript func(written [][]byte) (packet []byte, err error)
+
+type verifServerAuthTransport struct {
+	script    VerifServerAuthScript
+	sessionID []byte
+	written   [][]byte
+}
+
+func (t *verifServerAuthTransport) writePacket(p []byte) error {
+	t.written = append(t.written, slices.Clone(p))
+	return nil
+}
+
+func (t *verifServerAuthTransport) readPacket() ([]byte, error) {
+	w := t.written
+	t.written = nil
+	p, err := t.script(w)
+	if err != nil {
+		return nil, err
+	}
+	if len(p) == 0 {
+		return nil, io.ErrUnexpectedEOF
+	}
+	return slices.Clone(p), nil
+}
+
+func (t *verifServerAuthTransport) Close() error { return nil }
+func (t *verifServerAuthTransport) getAlgorithms() NegotiatedAlgorithms {
+	return NegotiatedAlgorithms{}
+}
+func (t *verifServerAuthTransport) getSessionID() []byte { return t.sessionID }
+func (t *verifServerAuthTransport) waitSession() error   { return nil }
+
+// verifServerAuthConn is a net.Conn that only carries addresses.
+type verifServerAuthConn struct {
+	local, remote net.Addr
+}
+
+func (c verifServerAuthConn) Read([]byte) (int, error)         { return 0, io.EOF }
+func (c verifServerAuthConn) Write(p []byte) (int, error)      { return len(p), nil }
+func (c verifServerAuthConn) Close() error                     { return nil }
+func (c verifServerAuthConn) LocalAddr() net.Addr              { return c.local }
+func (c verifServerAuthConn) RemoteAddr() net.Addr             { return c.remote }
+func (c verifServerAuthConn) SetDeadline(time.Time) error      { return nil }
+func (c verifServerAuthConn) SetReadDeadline(time.Time) error  { return nil }
+func (c verifServerAuthConn) SetWriteDeadline(time.Time) error { return nil }
+
+// VerifServerAuthPrepareConfig applies to a copy of config the defaulting and
+// validation that NewServerConn and serverHandshake perform before the
+// authentication loop runs (SetDefaults, MaxAuthTries 0 -> 6, default and
+// validated PublicKeyAuthAlgorithms, "no authentication methods configured").
+// This is a transcription of those lines; the conformance check covers the
+// originals separately through a real NewServerConn.
+func VerifServerAuthPrepareConfig(config *ServerConfig) (*ServerConfig, error) {
+	fullConf := *config
+	fullConf.SetDefaults()
+	if fullConf.MaxAuthTries == 0 {
+		fullConf.MaxAuthTries = 6
+	}
+	if len(fullConf.PublicKeyAuthAlgorithms) == 0 {
+		fullConf.PublicKeyAuthAlgorithms = defaultPubKeyAuthAlgos
+	} else {
+		for _, algo := range fullConf.PublicKeyAuthAlgorithms {
+			if !slices.Contains(SupportedAlgorithms().PublicKeyAuths, algo) && !slices.Contains(InsecureAlgorithms().PublicKeyAuths, algo) {
+				return nil, fmt.Errorf("ssh: unsupported public key authentication algorithm %s", algo)
+			}
+		}
+	}
+	if !fullConf.NoClientAuth && fullConf.PasswordCallback == nil && fullConf.PublicKeyCallback == nil &&
+		fullConf.KeyboardInteractiveCallback == nil && !gssapiWithMICConfigured(fullConf.GSSAPIWithMICConfig) {
+		return nil, fmt.Errorf("ssh: no authentication methods configured but NoClientAuth is also false")
+	}
+	return &fullConf, nil
+}
+
+// VerifServerAuthResult is the outcome of one run of serverAuthenticate.
+type VerifServerAuthResult struct {
+	Permissions *Permissions
+	Err         error
+	// Tail holds the packets written after the last packet was read.
+	Tail [][]byte
+	// User is the user name recorded on the connection when the loop ended.
+	User string
+}
+
+// VerifServerAuthenticate builds a server-side connection over the scripted
+// transport and runs the real serverAuthenticate on it, unchanged. config is
+// used as given (see VerifServerAuthPrepareConfig); sessionID is what the
+// transport reports as the session identifier; remote is the connection's
+// remote address (it may be nil or a non-TCP address).
+func VerifServerAuthenticate(config *ServerConfig, script VerifServerAuthScript, sessionID []byte, remote net.Addr) *VerifServerAuthResult {
+	t := &verifServerAuthTransport{script: script, sessionID: slices.Clone(sessionID)}
+	s := &connection{
+		transport: t,
+		sshConn: sshConn{
+			conn:          verifServerAuthConn{local: &net.TCPAddr{IP: net.IPv4(127, 0, 0, 1), Port: 22}, remote: remote},
+			sessionID:     slices.Clone(sessionID),
+			clientVersion: []byte("SSH-2.0-verif-client"),
+			serverVersion: []byte(packageVersion),
+		},
+	}
+	perms, err := s.serverAuthenticate(config)
+	return &VerifServerAuthResult{Permissions: perms, Err: err, Tail: t.written, User: s.user}
+}
